@@ -50,9 +50,33 @@ var srcComments = []string{"c", "TODO: x = 1", "{ unbalanced", "} ]", "\"quote",
 
 func (g *SrcGen) ctext() string { return rapid.SampledFrom(srcComments).Draw(g.T, "ctext") }
 
+// inlineComment: wherever one comment can stand, a run of several can: one to
+// three /* */ comments with optional space between them.
 func (g *SrcGen) inlineComment() string {
-	g.feat("comment:inline")
-	return "/* " + strings.ReplaceAll(g.ctext(), "*/", "*") + " */"
+	n := 1
+	if g.r("comment-run", 3) == 0 {
+		n = 2 + g.r("comment-run-len", 2)
+		g.feat("comment:run-of-inline")
+	}
+	var b strings.Builder
+	for i := 0; i < n; i++ {
+		g.feat("comment:inline")
+		if i > 0 {
+			b.WriteString(rapid.SampledFrom([]string{"", " ", "\t"}).Draw(g.T, "comment-gap"))
+		}
+		b.WriteString("/* " + strings.ReplaceAll(g.ctext(), "*/", "*") + " */")
+	}
+	return b.String()
+}
+
+// lineEndComments: the comments that may end a line: optional inline comment(s)
+// followed by a # or // comment.
+func (g *SrcGen) lineEndComments() string {
+	if g.r("inline-before-line-comment", 3) == 0 {
+		g.feat("comment:inline-then-line-comment")
+		return g.inlineComment() + rapid.SampledFrom([]string{"", " ", "\t"}).Draw(g.T, "comment-gap") + g.lineCommentShort()
+	}
+	return g.lineCommentShort()
 }
 
 // lineComment: a comment that also ends the line.
@@ -95,7 +119,7 @@ func (g *SrcGen) ws(nlOK bool) string {
 		return " "
 	default:
 		if nlOK {
-			return " " + g.lineCommentShort() + "\t"
+			return " " + g.lineEndComments() + "\t"
 		}
 		return "   "
 	}
@@ -130,7 +154,7 @@ func (g *SrcGen) number() string {
 	return rapid.SampledFrom([]string{"0", "1", "42", "1.5", "0.25", "1e3", "2E+2", "3e-1", "1000000", "12.5e1"}).Draw(g.T, "num")
 }
 
-var litChunks = []string{"a", "hello ", " ", "x=1", "é", "✓", "#", "//", "/*", "*/", "{", "}", "[", "'", ",", "\\n", "\\t", "\\\"", "\\\\", "$${", "%%{", "$", "%", "$$", "~", "\t", "EOT", "<<", "\\u00e9"}
+var litChunks = []string{"a", "hello ", " ", "x=1", "é", "✓", "#", "//", "/*", "*/", "{", "}", "[", "'", ",", "\\n", "\\t", "\\\"", "\\\\", "$${", "%%{", "$", "%", "$$", "~", "\t", "EOT", "<<", "\\x41"}
 
 // quotedLit: literal text inside a quoted template.
 func (g *SrcGen) quotedLit() string {
@@ -456,7 +480,7 @@ func (g *SrcGen) object(depth int) string {
 func (g *SrcGen) objnl() string {
 	switch g.r("objnl", 5) {
 	case 0:
-		return " " + g.lineCommentShort() + "  "
+		return " " + g.lineEndComments() + "  "
 	case 1:
 		return g.nl() + g.nl() + "\t"
 	}
@@ -481,7 +505,7 @@ func (g *SrcGen) indent(level int) string {
 func (g *SrcGen) eol() string {
 	switch g.r("eol", 8) {
 	case 0:
-		return g.ws(false) + g.lineCommentShort()
+		return g.ws(false) + g.lineEndComments()
 	case 1:
 		g.feat("space:blank-line")
 		return g.nl() + g.nl()
@@ -537,7 +561,7 @@ func (g *SrcGen) Body(level, depth int) string {
 	}
 	for i := 0; i < n; i++ {
 		// leading material
-		switch g.r("lead", 8) {
+		switch g.r("lead", 9) {
 		case 0:
 			b.WriteString(g.indent(level) + g.lineComment())
 		case 1:
@@ -546,8 +570,13 @@ func (g *SrcGen) Body(level, depth int) string {
 			b.WriteString(g.indent(level) + g.lineComment() + g.indent(level) + g.lineCommentShort())
 		case 3:
 			b.WriteString(g.indent(level) + g.lineCommentShort() + g.nl())
+		case 4:
+			b.WriteString(g.indent(level) + g.lineEndComments())
 		}
 		b.WriteString(g.indent(level))
+		if g.r("inline-lead", 10) == 0 {
+			b.WriteString(g.inlineComment() + " ")
+		}
 		if level < 3 && g.r("isblock", 3) == 0 {
 			b.WriteString(g.block(level, depth))
 		} else {
@@ -579,7 +608,12 @@ func (g *SrcGen) block(level, depth int) string {
 	default:
 		b.WriteString(g.eol())
 		b.WriteString(g.Body(level+1, depth))
-		b.WriteString(g.indent(level) + "}")
+		b.WriteString(g.indent(level))
+		if g.r("comment-before-close", 6) == 0 {
+			g.feat("comment:before-closing-brace")
+			b.WriteString(g.inlineComment() + g.ws(false))
+		}
+		b.WriteString("}")
 	}
 	b.WriteString(g.eol())
 	return b.String()
